@@ -92,6 +92,8 @@ MUTANTS = [
  ("c35-timeout-early", ["C35"], L+"client/transport/core.rs", "            if state.deadline <= now {", "            if state.deadline <= now + std::time::Duration::from_millis(8) {"),
  ("c35-any-pending-gets-response", ["C35"], L+"client/transport/core.rs", "        let Some(message_state) = self.message_states.get_mut(&req_id) else {\n            return Ok(());\n        };", "        let req_id = if self.message_states.contains_key(&req_id) { req_id } else { self.message_states.keys().next().cloned().unwrap_or(req_id) };\n        let Some(message_state) = self.message_states.get_mut(&req_id) else {\n            return Ok(());\n        };"),
  ("c35-abort-ignored", ["C35"], L+"client/transport/core.rs", "                let message_state = self.message_states.remove(&req_id).unwrap();\n                let _ = message_state\n                    .callback\n                    .send(Err(StatusCode::BadCommunicationError));", "                let _ = req_id;"),
+ ("c38-write-locks-swapped", ["C38"], L+"server/services/attribute.rs", "            let session = trace_read_lock!(session);\n            let mut address_space = trace_write_lock!(address_space);", "            let mut address_space = trace_write_lock!(address_space);\n            let session = trace_read_lock!(session);"),
+ ("c38-browse-locks-swapped", ["C38"], L+"server/services/view.rs", "            let mut session = trace_write_lock!(session);\n            let address_space = trace_read_lock!(address_space);\n\n            let view", "            let address_space = trace_read_lock!(address_space);\n            let mut session = trace_write_lock!(session);\n\n            let view"),
  ("c09-remove-size-check", ["C09"], L+"core/comms/secure_channel.rs", "            if message_size < encrypted_data_offset + signature_size {", "            if false && message_size < encrypted_data_offset + signature_size {"),
 ]
 
